@@ -56,6 +56,8 @@ pub(super) enum ParseErrorKind {
     UnexpectedToken { kind: TokenKind },
     #[error("Unknown token")]
     UnknownToken,
+    #[error("Statements starting with {kind:?} are not supported")]
+    UnsupportedStatement { kind: TokenKind },
 
     #[error("Expected a number but found a {kind:?} token")]
     ExpectedNumber { kind: TokenKind },
